@@ -45,6 +45,12 @@ CHECKS = {
  "C17": dict(cat="other", tech="byte/bit provenance over optimised LLVM IR for every provided conversion pair",
    text="convert<>, converting constructors, mask conversions and bit_cast for every provided pair of types of every configuration must be the identity on the representation (truth value per lane for masks, k-mask upper bits clear); width-1 cross-size conversions must be exactly trunc / sext-iff-signed / zext.",
    note=TB + "; bit_cast analysed in the memcpy variant (C++11, clang)", ref="4/C17"),
+ "C05": dict(cat="other", tech="bisimulation equality of optimised function bodies (A-ireq), trap-effect inventory with non-zero-divisor proof over terms, closed-form comparison of loop-free emulations",
+   text="NARROW CLAIM. Decided for every integer vector type x configuration: (a) x/y, x%y, /=, %= have bodies bisimilar to div(x,y).quot/.rem, so div returns the same pair as / and %; (b) no multi-lane div contains a hardware division whose divisor can be zero (term-level non-zero proof), positive control on width-1; (c) loop-free division emulations are compared as closed forms with truncating division on the lane for non-zero divisors (refutable by witness). NOT decided: value exactness of the long-division loops and reciprocal emulations (UNDECIDED, listed).",
+   note=TB + "; lane independence of the SSE2..AVX2 loops is not claimed (cross-lane loop exit condition)", ref="4/C05"),
+ "C20": dict(cat="proof", tech="effect inventory over the resolved IR of every prefetch instantiation (no load/store/call other than llvm.prefetch; operand and stride checks)",
+   text="Every instantiation of prefetch_read/prefetch_write (3 levels x untyped/typed x default n) at -O1 and -O2 in each analysed configuration contains only address arithmetic, control flow and llvm.prefetch(p+i, rw, 3-level, data) with a positive constant stride; llvm.prefetch has no effect on program behaviour (LangRef) and PREFETCHh never faults (SDM).",
+   note="LLVM LangRef llvm.prefetch; SDM PREFETCHh; GCC takes the same source branch (C19 branch-selection equality)", ref="4/C20", engine="E4-effects"),
 }
 
 NA = {
